@@ -197,6 +197,7 @@ class Enum:
                 self.name == other.name
                 and self.type == other.type
                 and self.values == other.values
+                and self.supportsCustomValues == other.supportsCustomValues
             )
         return False
 
@@ -766,6 +767,7 @@ class Notification:
                 and self.params == other.params
                 and self.registrationOptions == other.registrationOptions
                 and self.registrationMethod == other.registrationMethod
+                and self.typeName == other.typeName
             )
         return False
 
@@ -856,6 +858,7 @@ class Request:
                 and self.errorData == other.errorData
                 and self.registrationOptions == other.registrationOptions
                 and self.registrationMethod == other.registrationMethod
+                and self.typeName == other.typeName
             )
         return False
 
